@@ -44,7 +44,7 @@ def build_all(coq_targets=()):
         res["harness"] = (rc, out[-3000:])
         if rc != 0:
             raise BuildError("harness build failed (does /repo still compile?)\n" + out[-3000:])
-        if not os.path.exists(SHIM):
+        if not os.path.exists(SHIM) or os.path.getmtime(os.path.join(ROOT, "shim/fjshim.c")) > os.path.getmtime(SHIM):
             rc, out = sh("./build.sh", cwd=os.path.join(ROOT, "shim"))
             if rc != 0:
                 raise BuildError("shim build failed\n" + out[-2000:])
